@@ -28,7 +28,7 @@ COMPONENTS = {"real": ["bioscrape.simulator.ArrayDelayQueue (compiled from the w
               "stub": []}
 TIERS = {
     "quick": {"cases": 60000, "block": 500, "case_timeout": 20.0},
-    "thorough": {"cases": 3000000, "block": 2000, "case_timeout": 30.0},
+    "thorough": {"cases": 20000000, "block": 5000, "case_timeout": 60.0},
 }
 
 FRACS = [0.0, 0.125, -0.125, 0.25, -0.25, 0.375, -0.375, 0.45, -0.45, 0.499, -0.499]
